@@ -10,7 +10,7 @@ import contracts.postoffice as PO
 import contracts.standins_iter as B8
 
 PROVED = [CP.do_compute_1, CP.do_compute_2, P.fix_output_chunk, P.fix_output_other, CH.chunk_split, CH.split_array,
-          CH.continuity_check, PR.tmp_init, PO.spy_save_chunk, PO.spy_receive, PO.spy_close, PO.ack_msg_produced, PO.message_may_come]
+          CH.continuity_check, PR.tmp_init, PO.spy_save_chunk, PO.spy_receive, PO.spy_close, PO.ack_msg_produced, PO.message_may_come, PO.post_office_read]
 
 PROPERTY = Property(
     "C01", "proof",
@@ -29,7 +29,8 @@ PROPERTY = Property(
                 "_fix_output wraps a result into a chunk of the declared type, range and dtype or refuses it; continuity_check lets only "
                 "gap-free, overlap-free chunk sequences through to the user; ThreadedMailboxProcessor wires lazy mode, drivers and "
                 "capacities as specified; in the single-thread processor PostOffice._ack_msg_produced gives a produced message the next "
-                "number of its topic, caches it under that number and hands it to EVERY spy of the topic, and SaverSpy saves every chunk "
+                "number of its topic, caches it under that number and hands it to EVERY spy of the topic, each reader (_read) is handed messages 0, 1, 2, ... in order, each acknowledged first and "
+                "each taken from the cache under its own number or freshly fetched, and SaverSpy saves every chunk "
                 "the rechunker hands out exactly once under consecutive numbers and flushes before it closes the saver.  End to end (bounded): for a graph with row-wise, filtering, same-kind merging, multi-output, "
                 "overlap-window and exhaust plugins the rows of get_iter equal the whole-run computation and the chunks tile the run, over "
                 "the enumerated source chunkings (empty and zero-duration chunks included), both processors, 1..2 workers, lazy / eager, "
